@@ -24,7 +24,7 @@ EXPLANATION = (
     "carries the time-step counter; the dap column carries the state's dap. C07.d: the planting / harvest year lists "
     "derived at initialisation are not mutated in place while another name aliases the same list. C07.e: crop_mature is set only under `<clock> >= crop.Maturity` "
     "where the clock's normal form is the state's own days-after-planting (under CalendarType == 1) or cumulative degree days (under "
-    "CalendarType == 2) of that day - not a delay-adjusted or otherwise shifted clock - and both calendar types are covered. C07.f: crop_mature, crop_dead, harvest_flag and dap are cleared on every path of the season reset (literal setattr loops are expanded). C07.g: the growing-season window excludes the step that starts on the harvest date (the summary is written on the step that ends on it), so the season's length does not depend on the off-season flag. NOT decided: the "
+    "CalendarType == 2) of that day - not a delay-adjusted or otherwise shifted clock - and both calendar types are covered. C07.f: crop_mature, crop_dead, harvest_flag and dap are cleared on every path of the season reset (literal setattr loops are expanded). C07.g: the growing-season window excludes the step that starts on the harvest date (the summary is written on the step that ends on it), so the season's length does not depend on the off-season flag. C07.h: the day offset from which a missing harvest date is derived (kept as month/day; seasons recur yearly) has a constant bound <= 364 - a larger offset wraps round the year and cuts every season short. NOT decided: the "
     "planting / harvest year arithmetic itself (numeric).")
 
 L = frozenset
